@@ -59,6 +59,7 @@ struct ThreadCtx
    uint64_t stamp[NPOINTS] = { 0 };   // clock of the last hit per point
    unsigned hits[NPOINTS] = { 0 };
    int lastDelay = 0;
+   int delayAt[NPOINTS] = { 0 };    // delay class drawn at the last hit per point
    void arm(uint64_t seed, int lvl)
    {
       active = true;
@@ -68,7 +69,7 @@ struct ThreadCtx
    }
    void clear()
    {
-      for (int i = 0; i < NPOINTS; ++i) { stamp[i] = 0; hits[i] = 0; }
+      for (int i = 0; i < NPOINTS; ++i) { stamp[i] = 0; hits[i] = 0; delayAt[i] = 0; }
    }
 };
 thread_local ThreadCtx tctx;
@@ -115,6 +116,7 @@ extern "C" void celma_verif_point(const char* name)
    c.stamp[p] = tick();
    int d = drawDelay(c.rng, c.level);
    c.lastDelay = d;
+   c.delayAt[p] = d;
    doDelay(d);
 }
 
@@ -426,7 +428,7 @@ void mthreadCase(const vh::Args& a, vh::Out& out, vh::Progress& prog, uint64_t i
          if (inactive)
             out.viol("mthread|inactive-while-running", std::string(d) + ": isActive() returned false " + std::to_string(inactive) +
                      " of " + std::to_string(K) + " times after the observer had seen the thread function running and before it was released" +
-                     " (hook delay class " + std::to_string(tctx.lastDelay) + ")");
+                     " (hook delay class before flag initialisation: " + std::to_string(tctx.delayAt[P_MT_BEFORE_INIT]) + ")");
          if (afterJoin)
             out.viol("mthread|active-after-join", std::string(d) + ": isActive() returned true after the function returned and join()");
          if (!sh.finished.load()) out.viol("mthread|harness", std::string(d) + ": join() returned before the function finished");
@@ -463,13 +465,15 @@ void mthreadCase(const vh::Args& a, vh::Out& out, vh::Progress& prog, uint64_t i
       if (tHook && tFunc) order = tFunc < tHook ? 1 : 2;
       if (order == 1) out.stat("mthread_order_function_entered_before_flag_init_point");
       if (order == 2) out.stat("mthread_order_flag_init_point_before_function_entered");
-      if (tHook) out.stat(std::string("mthread_hook_delay_class_") + std::to_string(tctx.lastDelay));
-      out.distinct(vh::hash_u64(kind, vh::hash_u64(level, vh::hash_u64(order, vh::hash_u64(tHook ? tctx.lastDelay : 9)))));
+      const int dInit = tHook ? tctx.delayAt[P_MT_BEFORE_INIT] : 9, dStarted = tctx.hits[P_MT_STARTED] ? tctx.delayAt[P_MT_STARTED] : 9;
+      if (tHook) out.stat(std::string("mthread_delay_before_flag_init_class_") + std::to_string(dInit));
+      if (tctx.hits[P_MT_STARTED]) out.stat(std::string("mthread_delay_after_thread_start_class_") + std::to_string(dStarted));
+      out.distinct(vh::hash_u64(kind, vh::hash_u64(level, vh::hash_u64(order, vh::hash_u64(dInit, vh::hash_u64(dStarted))))));
       if (out.wantSample() && l == lifetimes / 2)
       {
          char b[220];
-         snprintf(b, sizeof b, "%s hook_delay_class=%d order=%s", d, tHook ? tctx.lastDelay : -1,
-                  order == 1 ? "function-entered<flag-init-point" : order == 2 ? "flag-init-point<function-entered" : "no-hook");
+         snprintf(b, sizeof b, "%s hook_delay_classes=%d/%d order=%s", d, dInit, dStarted,
+                  order == 1 ? "function-entered<flag-init-point" : order == 2 ? "flag-init-point<function-entered" : "n/a");
          out.sample(b);
       }
    }
